@@ -38,7 +38,8 @@
 using namespace ltv;
 using torrent::Object;
 
-static std::string g_scratch;   // /verif/build/scratch/<pid>
+static std::string g_base;      // /verif/build/scratch/c08-<pid>   (everything this process may touch)
+static std::string g_scratch;   // <base>/j/j/j/j/j/s : the download root handed to the library
 static const uint32_t open_chunk_limit = 4096;   // harness rule (DownloadMain::open allocates per chunk)
 static const size_t open_file_limit = 64;
 
@@ -96,6 +97,13 @@ static void walk(const std::string& top, const std::string& rel, std::vector<std
   }
 }
 
+static void make_jail() {
+  rm_rf(g_base);
+  std::string p = g_base;
+  ::mkdir(p.c_str(), 0777);
+  for (const char* c : {"j", "j", "j", "j", "j", "s"}) { p += "/"; p += c; ::mkdir(p.c_str(), 0777); }
+}
+
 static std::string join(const std::vector<std::string>& v) {
   if (v.empty()) return "-";
   std::string s;
@@ -145,8 +153,7 @@ static std::string run_object(Object* obj) {
     if (fl->size_chunks() > open_chunk_limit || fl->size_files() > open_file_limit) {
       out += " | OPEN:skip";
     } else {
-      rm_rf(g_scratch);
-      ::mkdir(g_scratch.c_str(), 0777);
+      make_jail();
       std::string root = g_scratch;
       if (fl->is_multi_file()) root += "/" + info->name().str();
       std::string st;
@@ -169,30 +176,21 @@ static std::string run_object(Object* obj) {
         else fr.push_back("ABS" + hex(p));
       }
       out += " frozen=" + join(fr);
-      std::vector<std::pair<std::string, char>> raw;
+      // walk the whole private tree <base>: the jail chain j/j/j/j/j/s and what is under s are
+      // expected; anything else (a ".." walking up a few levels lands inside <base>) is an escape
+      std::vector<std::pair<std::string, char>> all, raw;
       std::string escape;
-      walk(g_scratch, "", raw, escape);
+      walk(g_base, "", all, escape);
+      const std::string jail = "j/j/j/j/j/s";
+      for (auto& x : all) {
+        if (x.first.size() <= jail.size() && jail.compare(0, x.first.size(), x.first) == 0 &&
+            (x.first.size() == jail.size() || jail[x.first.size()] == '/')) continue;      // the chain itself
+        if (x.first.compare(0, jail.size() + 1, jail + "/") == 0) raw.push_back({x.first.substr(jail.size() + 1), x.second});
+        else if (escape.empty()) escape = g_base + "/" + x.first;
+      }
       std::sort(raw.begin(), raw.end());      // byte order of the relative path
       std::vector<std::string> inodes;
       for (auto& x : raw) inodes.push_back(std::string(1, x.second) + ":" + hex(x.first));
-      // anything created next to the scratch root?
-      {
-        std::string parent = g_scratch.substr(0, g_scratch.rfind('/'));
-        DIR* dd = opendir(parent.c_str());
-        std::string self = g_scratch.substr(g_scratch.rfind('/') + 1);
-        if (dd) {
-          while (dirent* e = readdir(dd)) {
-            std::string n = e->d_name;
-            // other shards own their own <pid> directories (all digits)
-            bool digits = !n.empty() && std::all_of(n.begin(), n.end(), [](char c) { return c >= '0' && c <= '9'; });
-            if (n != "." && n != ".." && n != self && !digits) {
-              if (escape.empty()) escape = parent + "/" + n;
-              rm_rf(parent + "/" + n);      // do not let one escape poison later cases / runs
-            }
-          }
-          closedir(dd);
-        }
-      }
       if (escape.empty()) out += " | FS:ok " + join(inodes);
       else out += " | FS:escape " + hex(escape);
     }
@@ -204,17 +202,17 @@ static std::string run_object(Object* obj) {
       torrent::download_remove(d);
     } catch (std::exception& e) { out += std::string(" REMOVE-ERR ") + e.what(); }
   }
-  rm_rf(g_scratch);
+  rm_rf(g_base);
   return out;
 }
 
 int main() {
   std_setup();
-  g_scratch = "/verif/build/scratch";
   ::mkdir("/verif/build", 0777);
-  ::mkdir(g_scratch.c_str(), 0777);
-  g_scratch += "/" + std::to_string(getpid());
-  rm_rf(g_scratch);
+  ::mkdir("/verif/build/scratch", 0777);
+  g_base = "/verif/build/scratch/c08-" + std::to_string(getpid());
+  g_scratch = g_base + "/j/j/j/j/j/s";
+  rm_rf(g_base);
 
   torrent::initialize_main_thread();
   torrent::initialize();
@@ -250,7 +248,7 @@ int main() {
     } catch (std::exception& e) { res = std::string("ERR:other ") + e.what(); }
     std::cout << res << "\n";
   }
-  rm_rf(g_scratch);
+  rm_rf(g_base);
   std::cout.flush();
   // no torrent::cleanup(): worker threads are simply abandoned at exit (quick_exit avoids
   // destructor races with the still-running library threads)
